@@ -122,3 +122,21 @@ PROPS["C19"] = {
     "not_proved": "the five-hop walk (OOXML at entries 2..6, converse) under the signature-freeness hypothesis: decided on the implementation",
     "assumptions": COMMON_ASSUME + ["bodies free of embedded zip signatures (filtered by the generator)"],
 }
+
+PROPS["C05"] = {
+    "channels": [{"cmd": "run-c05"}],
+    "cone": r"^MISMATCH (reader|harness|driver)",
+    "rule": "inputs (empty, 1 byte, PDF/JSON/CSV/HTML/PNG/zip headers, random, the testdata files) x limits {0, 3072, 1, len-1, len/2, len, len+1, 2^22} x chunk schedules (plain, 1-byte, 3-byte, zero-length reads, data together with EOF, Fibonacci, random) and an injected sentinel error at every byte offset 0..min(len,limit)+1 (single chunk and 2-byte chunks); a root-level spy extension records the exact (header, limit) handed to the tree walk, the reader counts bytes delivered; compared with the reader model and judged directly (agreement with Detect, consumed <= limit, error surfaces with application/octet-stream); DetectFile on temp files, a directory and a missing path; non-trivial = scripted (non-plain) reader",
+    "proved": "reader_agrees (all inputs, limits, failure-free scripts): header = hdr limit x, no error, consumed <= limit (= len for limit 0); ReadFull/ReadAll lemmas; error at the first read surfaces",
+    "not_proved": "error surfacing after k delivered bytes is proved for k = 0 only (k > 0: model + correspondence); os.File assumed conforming",
+    "assumptions": COMMON_ASSUME + ["a buffer of `limit` bytes behaves like one of min(limit, len+1) bytes (model abstraction)", "os.File is a conforming reader"],
+}
+
+PROPS["C14"] = {
+    "channels": [{"cmd": "run-c14", "shards": 8}],
+    "cone": r"^MISMATCH (walk|harness|driver)",
+    "rule": "24 (thorough 400) random histories of 1-8 Extend calls on the root, on built-in formats at every depth and on earlier extensions, detectors from a serialisable family (prefix, byte-at-offset, minimum length, always, never), caller-owned alias slices with spare capacity; each history in a fresh process: after every call the dumped pointer graph must equal the model's insert-in-front tree and parent pointers must agree with children lists; 18 probe inputs x limits {3072, 0}: Detect must equal the first-match walk over the enlarged tree driven by the observed verdicts, inputs rejected by every extension must be classified as in an extension-free process; Lookup of every extension name and alias (right parent, Is); a result taken before the calls is re-read afterwards",
+    "proved": "Extend prepends; priority and containment; non-interference; histories: for all trees, verdict functions and op sequences",
+    "not_proved": "aliasing of the caller's alias slice backing array is a runtime fact (checked on the code)",
+    "assumptions": COMMON_ASSUME + ["extension detectors are pure total predicates of (header, limit)"],
+}
